@@ -568,6 +568,51 @@ def no_hidden_state(chk, repo, pid):
     return eff
 
 
+def mask_index_rule(chk, repo, clause, keys, config=None):
+    """A 0/1 mask selects samples only as a boolean array: as an integer array it is a list of row numbers (rows 0 and 1), and
+    the bitwise complement `~m` of an integer mask is the list (-1, -2).  Decided for subscript stores whose key is
+      * `~x` with x a plane mask (`mask`, `_mask`, `global_mask`: stored as 0/1 numbers, integers after a rescale), or
+      * a loop-carried array that starts as zeros / ones / empty / full of a non-boolean element type."""
+    from .. import dtypes
+    bad, n = [], 0
+    cfgs = config if isinstance(config, list) else [config]
+    for key in keys:
+        if not repo.has_func(key):
+            continue
+        f = repo.func(key)
+        for cfg in cfgs:
+            try:
+                _, paths, _ = analyse(repo, f, config=cfg)
+            except AnalysisError:
+                continue
+            for p in paths:
+                loops = p.state.loops
+                evs = list(p.events) + [e for lp in loops for b in lp['states'] for e in b.events[lp['n_pre_events']:]]
+                for e in evs:
+                    if not (e.kind == 'write' and e.data.get('how') == 'setitem') or not isinstance(e.data.get('key'), Poly):
+                        continue
+                    k = e.data['key']
+                    n += 1
+                    ka = k.single_atom()
+                    if ka is not None and is_app(ka, 'invert') and isinstance(ka[2][0], Poly):
+                        xa = ka[2][0].single_atom()
+                        if xa is not None and xa[0] == 'attr' and xa[2] in ('mask', '_mask', 'global_mask'):
+                            bad.append(f'{f.key}: `~{fmt(ka[2][0])[-40:]}` used as an index at {e.loc()}: the mask holds the numbers 0 / 1, '
+                                       'whose bitwise complement is -1 / -2 - a list of row numbers, not the samples outside the mask')
+                    if ka is not None and ka[0] == 'loop':
+                        for lp in loops:
+                            for nm, phi in lp['phi'].items():
+                                if phi.single_atom() is not None and phi.single_atom()[:2] == ka[:2]:
+                                    pre = lp['pre'].get(nm)
+                                    pa = pre.single_atom() if isinstance(pre, Poly) else None
+                                    if pa is not None and is_app(pa, ('zeros', 'ones', 'empty', 'full', 'zeros_like', 'ones_like')) \
+                                            and 'bool' not in dtypes.kinds(pre):
+                                        bad.append(f'{f.key}: `{nm}` starts as {fmt(pre)[:60]} and is used as an index at {e.loc()}: a '
+                                                   'numeric 0/1 array indexes rows 0 and 1 instead of selecting the marked samples')
+    chk.ob(clause, 'T-dtype', '+'.join(k.split('.')[-1] for k in keys), 'masks select samples as boolean arrays',
+           (not bad) if n else None, '; '.join(sorted(set(bad))[:2]) or f'{n} subscript store(s) examined', '')
+
+
 LAZY_CALLS = ('map', 'filter', 'zip', 'iter', 'reversed', 'enumerate')
 
 
